@@ -123,7 +123,11 @@ func (p *parsing) parseSwitch(tok token, end tokenTyp) ast.Node {
 				// before and after the semicolon token:
 				//     switch x := 2; x = y.(type) {
 				assignment, tok = p.parseAssignment(expressions, tok, false, true, true)
-				ta, ok := assignment.Rhs[0].(*ast.TypeAssertion)
+				var ta *ast.TypeAssertion
+				var ok bool
+				if len(assignment.Rhs) > 0 {
+					ta, ok = assignment.Rhs[0].(*ast.TypeAssertion)
+				}
 				// TODO (Gianluca): should error contain the position of the
 				// expression which caused the error instead of the token (as Go
 				// does)?
